@@ -19,16 +19,27 @@
 (*    std::less <=> lexicographic: some k with lt[k] and eqs[j] for all j < k   *)
 (* (the definitions of VecAlgebra!Eq / Ne / AnyLessThan / Less with the real    *)
 (* scalar comparisons in place of the integer ones).                            *)
-(* Input: IOEnv.C04_OBS (ndjson {id, r: {op: {family: {v, s}}}, c: {family:     *)
+(* Input: IOEnv.C04_OBS (ndjson {id, r: {op: {family: {k, v, s}}}, c: {family:  *)
 (* {eq, ne, anylt, less, lt, eqs, nes}}}); output: rejected (id, op, family)    *)
 (* triples as ndjson in IOEnv.OUT.                                              *)
 EXTENDS Integers, Sequences, FiniteSets, TLC, IOUtils, Json, SequencesExt
 
 Obs == ndJsonDeserialize(IOEnv.C04_OBS)
 
-\* the law for value-returning operators
+\* the law for value-returning operators.  e.k is the kind of the recorded type: "i" integer, "f" float (2 pieces per component,
+\* most significant first), "d" double (4 pieces).  Operands may be infinite (the statement's quantifier names infinities), so a
+\* result can be NaN (inf - inf, 0 * inf, inf / inf): then both sides must be NaN - sign and payload of a NaN are not part of the law.
+W(e) == IF e.k = "f" THEN 2 ELSE IF e.k = "d" THEN 4 ELSE 1
+IsNaN(q, c, k) ==
+  IF k = "f" THEN (q[2 * c - 1] % 32768) \div 128 = 255 /\ ((q[2 * c - 1] % 128) # 0 \/ q[2 * c] # 0)
+  ELSE IF k = "d" THEN (q[4 * c - 3] % 32768) \div 16 = 2047 /\ ((q[4 * c - 3] % 16) # 0 \/ q[4 * c - 2] # 0 \/ q[4 * c - 1] # 0 \/ q[4 * c] # 0)
+  ELSE FALSE
 Lift(e) == /\ Len(e.v) = Len(e.s)
-           /\ \A i \in DOMAIN e.v : e.v[i] = e.s[i]
+           /\ IF e.k = "i" THEN \A i \in DOMAIN e.v : e.v[i] = e.s[i]
+              ELSE /\ Len(e.v) % W(e) = 0
+                   /\ \A c \in 1..(Len(e.v) \div W(e)) :
+                        \/ \A j \in (W(e) * (c - 1) + 1)..(W(e) * c) : e.v[j] = e.s[j]
+                        \/ IsNaN(e.v, c, e.k) /\ IsNaN(e.s, c, e.k)
 \* the comparison operators from the scalar comparisons
 Some(q) == \E i \in DOMAIN q : q[i]
 All(q)  == \A i \in DOMAIN q : q[i]
@@ -48,10 +59,14 @@ RejSeq == LET s == SetToSeq(RejIdx)
 TotalJudged == Cardinality(UNION {UNION {{<<k, op, fam>> : fam \in DOMAIN Obs[k].r[op]} : op \in DOMAIN Obs[k].r} : k \in DOMAIN Obs})
                + 4 * Cardinality(UNION {{<<k, fam>> : fam \in DOMAIN Obs[k].c} : k \in DOMAIN Obs})
 
-\* the law is not vacuous: one flipped piece, a missing component, a wrong comparison are rejected
-ASSUME Lift([v |-> <<16213, 21845>>, s |-> <<16213, 21845>>]) /\ ~Lift([v |-> <<16213, 21846>>, s |-> <<16213, 21845>>])
-ASSUME ~Lift([v |-> <<16213>>, s |-> <<16213, 21845>>])
-ASSUME ~Lift([v |-> <<32768, 0>>, s |-> <<0, 0>>])                  \* -0 is not +0
+\* the law is not vacuous: one flipped piece, a missing component, a signed zero are rejected; NaN matches NaN only
+ASSUME Lift([k |-> "f", v |-> <<16213, 21845>>, s |-> <<16213, 21845>>]) /\ ~Lift([k |-> "f", v |-> <<16213, 21846>>, s |-> <<16213, 21845>>])
+ASSUME ~Lift([k |-> "f", v |-> <<16213>>, s |-> <<16213, 21845>>])
+ASSUME ~Lift([k |-> "f", v |-> <<32768, 0>>, s |-> <<0, 0>>])                                   \* -0 is not +0
+ASSUME Lift([k |-> "f", v |-> <<65472, 0>>, s |-> <<32704, 1>>])                                 \* -qNaN and +NaN with payload
+ASSUME ~Lift([k |-> "f", v |-> <<32640, 0>>, s |-> <<32704, 0>>])                                \* +inf is not NaN
+ASSUME ~Lift([k |-> "i", v |-> <<65472, 0>>, s |-> <<32704, 1>>])
+ASSUME Lift([k |-> "d", v |-> <<65528, 0, 0, 0>>, s |-> <<32760, 0, 0, 0>>]) /\ ~Lift([k |-> "d", v |-> <<32752, 0, 0, 0>>, s |-> <<32760, 0, 0, 0>>])
 ASSUME CmpFailures([eq |-> FALSE, ne |-> TRUE, anylt |-> TRUE, less |-> FALSE, lt |-> <<FALSE, TRUE>>, eqs |-> <<FALSE, FALSE>>, nes |-> <<TRUE, TRUE>>]) = {}
 ASSUME CmpFailures([eq |-> FALSE, ne |-> TRUE, anylt |-> TRUE, less |-> TRUE, lt |-> <<FALSE, TRUE>>, eqs |-> <<FALSE, FALSE>>, nes |-> <<TRUE, TRUE>>]) = {"less"}
 ASSUME CmpFailures([eq |-> TRUE, ne |-> FALSE, anylt |-> FALSE, less |-> FALSE, lt |-> <<FALSE, FALSE>>, eqs |-> <<TRUE, TRUE>>, nes |-> <<FALSE, FALSE>>]) = {}
